@@ -76,17 +76,31 @@ def _worker(args):
         "digests": {}, "harness": None, "samples": [], "nondet": [],
     }
     try:
+        all_cpus = None
         if stride > 1 and hasattr(os, "sched_setaffinity"):
             # baton hand-offs between the threads of one worker are far
-            # cheaper when they stay on one core
+            # cheaper when they stay on one core - as long as that core is
+            # ours; when something else competes for it every hand-off waits
+            # for a time slice, so the pinning is dropped again if the first
+            # runs turn out slow (wall clock used for this budget decision
+            # only, never visible to a simulated run)
             try:
-                cpus = sorted(os.sched_getaffinity(0))
+                all_cpus = os.sched_getaffinity(0)
+                cpus = sorted(all_cpus)
                 os.sched_setaffinity(0, {cpus[lo % len(cpus)]})
             except OSError:
-                pass
+                all_cpus = None
+        t_mark = report.Stopwatch()
         for idx in range(lo, hi, stride):
             if out["runs"] % 50 == 0:
-                faulthandler.dump_traceback_later(300, exit=True)
+                faulthandler.dump_traceback_later(3600, exit=True)
+            if all_cpus is not None and out["runs"] in (10, 60, 300, 2000):
+                if t_mark.elapsed() / out["runs"] > spec.slow_run_s:
+                    try:
+                        os.sched_setaffinity(0, all_cpus)
+                    except OSError:
+                        pass
+                    all_cpus = None
             res = run_idx(spec, seed, idx)
             out["runs"] += 1
             out["faults"].update(res.get("faults", {}))
